@@ -6,6 +6,7 @@ use serde_json::{json, Value};
 pub mod c01;
 pub mod c02;
 pub mod c04;
+pub mod c05;
 pub mod c13;
 pub mod libx;
 pub mod sigh;
@@ -24,6 +25,7 @@ pub fn lookup(id: &str) -> Option<Prop> {
         "C02" => c02::PROP,
         "C03" => sigh::PROP_C03,
         "C04" => c04::PROP,
+        "C05" => c05::PROP,
         "C10" => sigh::PROP_C10,
         "C13" => c13::PROP,
         _ => return None,
